@@ -7,10 +7,10 @@ import (
 	"os"
 	"os/exec"
 	"path/filepath"
-	"strings"
 	"runtime/debug"
 	"sort"
 	"strconv"
+	"strings"
 
 	"kverif/internal/load"
 	"kverif/internal/report"
@@ -120,8 +120,8 @@ func main() {
 		extra["positive_controls"] = runControls(home, prop)
 	}
 	extra2 := map[string]any{
-		"packages_loaded": len(p.Pkgs),
-		"load_s":          p.LoadTime.Seconds(),
+		"packages_loaded":       len(p.Pkgs),
+		"load_s":                p.LoadTime.Seconds(),
 		"tolerated_load_errors": p.Tolerated,
 	}
 	for k, v := range extra2 {
